@@ -3,7 +3,7 @@
    status codes and all reasons by interval case analysis, and the SCHEDULE clauses (at most one Close frame, no data
    frame after it - for every number of threads and every interleaving) for the concurrency skeleton that the
    translator regenerates from /repo on every run (Gen/Skel.v). *)
-From Gws Require Import Lib.Base Model.CloseCode Spec.CloseReply Proofs.CloseProofs.
+From Gws Require Import Lib.Base Model.CloseCode Spec.CloseReply Proofs.CloseProofs Gen.Funcs Proofs.GenFuncsProofs.
 From Gws Require Import Skel.IR Skel.Checker Skel.Monitors Skel.GlobalClose Skel.Link Skel.Obligations.
 Local Open Scope N_scope.
 
@@ -29,6 +29,13 @@ Theorem C06_error_close : forall reading e text,
   0 < st < 2 ^ 16 ->
   error_close_body reading e text = error_close_spec st text /\ (length (error_close_body reading e text) <= 125)%nat.
 Proof. exact error_close_correct. Qed.
+
+(* Tie to the source: the reply-status table (`switch realCode` in emitClose) and StatusCode.Bytes, as regenerated from
+   conn.go / internal/error.go on every run, are the model's close_class and status_bytes, for all 65536 status codes *)
+Theorem C06_close_table_from_source : forall real dflt, real < 65536 ->
+  gf_gws_Conn_emitClose_responseCode (Z.of_N real) dflt = Z.of_N (close_class real)
+  /\ gf_internal_StatusCode_Bytes (Z.of_N real) = map Z.of_N (status_bytes real).
+Proof. exact close_table_from_source. Qed.
 
 (* the registered code 1014 (not forbidden by RFC 6455 7.4) is answered 1000 - it was answered 1002 before fix ffeca41 *)
 Example C06_1014 : close_reply_body (fun _ => true) true [3; 246] = be16 1000.
@@ -68,3 +75,4 @@ Print Assumptions C06_local_close.
 Print Assumptions C06_error_close.
 Print Assumptions C06_one_close_nothing_after.
 Print Assumptions C06_skeleton_discipline.
+Print Assumptions C06_close_table_from_source.
